@@ -447,6 +447,13 @@ def run_check(prop_id, tier, seed, collect=False, shards_override=None, cases_ov
     for r in results:
         stats.merge_json(r)
         collected_all.extend(r.get("collected", []))
+    # samples: round-robin over the shards (every shard covers other classes)
+    stats.sample_list = []
+    lists = [list(r.get("sample_list", [])) for r in results]
+    for depth in range(max([len(l) for l in lists] + [0])):
+        for l in lists:
+            if depth < len(l) and l[depth] not in stats.sample_list and len(stats.sample_list) < 12:
+                stats.sample_list.append(l[depth])
     wall = time.time() - t0
 
     known = load_known_findings()
